@@ -21,11 +21,17 @@ import (
 
 const shardCount = 2
 
-// upstream names per shard (found by the real sharding function)
+// upstream names per shard (found by the real sharding function). Upstream names are DNS subdomains; the pool prefers the
+// boundary ones: one name that is a dotted prefix of another ("a.b" / "a.b.c": the condition "a.b.c.state" starts with
+// "a.b."), an IP-like name, a punycode name, a 63-character label, a 253-character name; plain names fill up.
 var upstreamsOf = func() [shardCount][]string {
+	l63 := strings.Repeat("u", 63)
+	cands := []string{"a.b", "a.b.c", "1.2.3.4", "xn--bcher-kva.example", l63, l63 + "." + l63 + "." + l63 + "." + strings.Repeat("v", 61)}
+	for i := 0; i < 40; i++ {
+		cands = append(cands, fmt.Sprintf("up-%d", i))
+	}
 	var out [shardCount][]string
-	for i := 0; len(out[0]) < 3 || len(out[1]) < 3; i++ {
-		n := fmt.Sprintf("up-%d", i)
+	for _, n := range cands {
 		s := util.GetShardID(n, shardCount)
 		if len(out[s]) < 3 {
 			out[s] = append(out[s], n)
@@ -71,7 +77,7 @@ func (s sequence) concurrentOn(name string) (outer, inner string, ok bool) {
 			continue
 		}
 		d := o.During
-		if d.Name == name || (d.Kind == "delete-upstream" && strings.HasPrefix(name, d.Upstream+".")) {
+		if d.Name == name || (d.Kind == "delete-upstream" && isCondOf(name, d.Upstream)) {
 			return o.Kind, d.Kind, true
 		}
 	}
@@ -83,6 +89,9 @@ type sequence struct {
 	Shard int    `json:"shard"`
 	Seeds []op   `json:"seeds"`
 	Ops   []op   `json:"ops"`
+	// Takeover: what the NEXT holder of the shard does after it loaded (no faults): its operations work on what Load put
+	// into its cache; then it stops and a third holder loads.
+	Takeover []op `json:"next_holder_ops,omitempty"`
 }
 
 func (s sequence) String() string {
@@ -93,6 +102,12 @@ func (s sequence) String() string {
 	ss = append(ss, "|")
 	for _, o := range s.Ops {
 		ss = append(ss, o.String())
+	}
+	if len(s.Takeover) > 0 {
+		ss = append(ss, "| next holder:")
+		for _, o := range s.Takeover {
+			ss = append(ss, o.String())
+		}
 	}
 	return fmt.Sprintf("%s shard=%d %s", s.Mode, s.Shard, strings.Join(ss, " "))
 }
@@ -115,7 +130,20 @@ func genSave(g *vkit.Rand, own []string, pickName func([]string) (string, string
 	return o
 }
 
-func condNames(u string) []string { return []string{u + ".state", u + ".inst-a", u + ".inst-b"} }
+// condNames: the upstream's state condition and two instance conditions (instance identities as the limiter's naming
+// helper leaves them: ':' replaced, upper case and dots kept).
+func condNames(u string) []string {
+	return []string{u + ".state", u + ".GW-Upper.Example", u + ".10.0.0.1-443"}
+}
+
+func isCondOf(name, upstream string) bool {
+	for _, n := range condNames(upstream) {
+		if n == name {
+			return true
+		}
+	}
+	return false
+}
 
 // genSequence: save / delete / delete-upstream / flush / tick / stop over 1..3 upstreams of the own shard and 1..2 of the
 // other shard, 3..12 operations after the initial Load, on top of 0..4 conditions that already exist in the API.
@@ -181,6 +209,24 @@ func genSequence(g *vkit.Rand, mode string) sequence {
 	}
 	if g.Chance(stopP) {
 		s.Ops = append(s.Ops, op{Kind: "stop"})
+	}
+	// half of the sequences: the next holder goes on working after its Load (2..4 operations, then a graceful stop)
+	if g.Chance(0.5) {
+		n := g.Range(2, 4)
+		for i := 0; i < n; i++ {
+			switch x := g.Intn(10); {
+			case x < 5:
+				s.Takeover = append(s.Takeover, genSave(g, own, pickName, next))
+			case x < 7:
+				u, name := pickName(own)
+				s.Takeover = append(s.Takeover, op{Kind: "delete", Upstream: u, Name: name})
+			case x < 9:
+				s.Takeover = append(s.Takeover, op{Kind: "delete-upstream", Upstream: own[g.Intn(len(own))]})
+			default:
+				s.Takeover = append(s.Takeover, op{Kind: "flush"})
+			}
+		}
+		s.Takeover = append(s.Takeover, op{Kind: "stop"})
 	}
 	// a third of the sequences: the server that will take this shard over gains the OTHER shard first, at some point while
 	// the store under test is still running and acknowledging; it gains this shard right after the end of the history,
@@ -249,7 +295,8 @@ type model struct {
 	pend       map[string]val
 	upstreamOf map[string]string
 	// lastSave[name]: shape of the last acknowledged save of name (save | get-mutate-save | mutate-resave)
-	lastSave map[string]string
+	lastSave  map[string]string
+	recreated int
 	// deletedAck[name]: the last thing acknowledged about name is its deletion (no save attempted since)
 	deletedAck map[string]bool
 	// localWasKnown: known[] as it was when the flush in progress started (for delete-upstream concurrent with it)
@@ -275,6 +322,9 @@ func newModel(seq sequence, snap map[string]stored) *model {
 		if o.During != nil {
 			note(*o.During)
 		}
+	}
+	for _, o := range seq.Takeover {
+		note(o)
 	}
 	return m
 }
@@ -306,6 +356,9 @@ func (m *model) afterLoad(snap map[string]stored) {
 }
 
 func (m *model) afterSave(o op, v val, acked bool) {
+	if acked && m.deletedAck[o.Name] {
+		m.recreated++
+	}
 	delete(m.deletedAck, o.Name)
 	if acked {
 		m.lastSave[o.Name] = o.Kind
@@ -406,6 +459,7 @@ type finding struct {
 	What   string
 	Name   string // the condition concerned
 	Shape  string // shape of the last acknowledged save of that condition
+	Phase  string // "" = the store under test; "next-holder" = found while / after the next holder worked on what it loaded
 }
 
 type panicInfo struct {
@@ -415,23 +469,27 @@ type panicInfo struct {
 }
 
 type runResult struct {
-	Calls      int
-	Verbs      []string
-	HitVerb    string
-	HitOp      string
-	hitOp      op
-	Skipped    bool
-	Crashed    bool
-	StorePanic *panicInfo
-	Log        []string
-	Findings   []finding
-	Final      map[string]string
-	Allowed    map[string]string
-	Sleeps     time.Duration
-	RanBetween bool   // the concurrent operation ran to completion between two API calls of a flush (the store did not make it wait)
-	NewServerFirst bool // the server that loads this shard at the end had gained the other shard before, during the history
-	Retried    bool   // a failed stop / flush was called again by the caller
-	Harness    string // set when the harness itself could not complete the run (=> inconclusive)
+	Calls          int
+	Verbs          []string
+	HitVerb        string
+	HitOp          string
+	hitOp          op
+	Skipped        bool
+	Crashed        bool
+	StorePanic     *panicInfo
+	Log            []string
+	Findings       []finding
+	Final          map[string]string
+	Allowed        map[string]string
+	Sleeps         time.Duration
+	RanBetween     bool   // the concurrent operation ran to completion between two API calls of a flush (the store did not make it wait)
+	NewServerFirst bool   // the server that loads this shard at the end had gained the other shard before, during the history
+	Retried        bool   // a failed stop / flush was called again by the caller
+	Recreated      int    // acknowledged saves of a condition whose deletion had been acknowledged before (same name again)
+	AliasedSaves   int    // saves that handed the store an object it (may) already share with the caller
+	StopAgain      int    // Stop() called once more after it had returned nil
+	TakeoverOps    int    // operations the next holder performed on what it had loaded
+	Harness        string // set when the harness itself could not complete the run (=> inconclusive)
 }
 
 // interleaveWindow: how long a flush waits, between two of its API calls, for a concurrent operation to finish.
@@ -502,13 +560,16 @@ func execute(seq sequence, faults []fault, emulateNilDeref bool) runResult {
 
 	var res runResult
 	cur := ""
-	add := func(oracle, what string) { res.Findings = append(res.Findings, finding{oracle, what, cur, m.lastSave[cur]}) }
+	phase := ""
+	add := func(oracle, what string) {
+		res.Findings = append(res.Findings, finding{oracle, what, cur, m.lastSave[cur], phase})
+	}
 
 	// runOnly performs a save / delete / delete-upstream on the store; account applies its acknowledgement to the model.
 	var aliasMu sync.Mutex
 	passed := map[string]*proxyv1alpha1.RateLimitCondition{} // the object handed to the latest Save of a name
-	savedVal := map[int32]val{}                               // op version -> the value that Save was handed
-	inPlace := map[string]valset{}                            // values the harness wrote IN PLACE into objects the store may hold
+	savedVal := map[int32]val{}                              // op version -> the value that Save was handed
+	inPlace := map[string]valset{}                           // values the harness wrote IN PLACE into objects the store may hold
 	runOnly := func(o op) (opOutcome, error, *panicInfo) {
 		switch o.Kind {
 		case "save", "get-mutate-save", "mutate-resave":
@@ -528,6 +589,7 @@ func execute(seq sequence, faults []fault, emulateNilDeref bool) runResult {
 					inPlace[o.Name] = valset{}
 				}
 				inPlace[o.Name][valOf(c)] = true
+				res.AliasedSaves++
 			} else {
 				c = newCondition(o.Upstream, o.Name, o.Ver) // nothing to alias (unknown or deleted condition): a fresh object
 			}
@@ -563,12 +625,12 @@ func execute(seq sequence, faults []fault, emulateNilDeref bool) runResult {
 
 	// checkLoad: a new store for shard sh over client loads; it must hold exactly what the API holds for that shard now.
 	var newServer *gatewayfake.Clientset
-	checkLoad := func(client *gatewayfake.Clientset, sh int, who string, snap map[string]stored) {
-		ns, _ := k8s.VerifNewK8sCacheStore(client, period, sh, shardCount)
+	checkLoad := func(client *gatewayfake.Clientset, sh int, who string, snap map[string]stored) (_interface.LimitStore, func()) {
+		ns, nsTick := k8s.VerifNewK8sCacheStore(client, period, sh, shardCount)
 		out, err, pi := callOp(ns.Load)
 		if out != acked {
 			add("load-fails", fmt.Sprintf("%s: Load() without any fault: %v %v", who, err, pi))
-			return
+			return nil, nil
 		}
 		got := map[string]val{}
 		for _, c := range listAll(ns) {
@@ -592,6 +654,7 @@ func execute(seq sequence, faults []fault, emulateNilDeref bool) runResult {
 				}
 			}
 		}
+		return ns, nsTick
 	}
 
 	reportedAtAck := map[string]bool{} // conditions whose loss was already reported at the acknowledgement
@@ -732,108 +795,129 @@ func execute(seq sequence, faults []fault, emulateNilDeref bool) runResult {
 		return out, err, pi
 	}
 
-	for _, o := range seq.Ops {
-		o := o
-		before := inj.calls
-		var out opOutcome
-		var err error
-		var pi *panicInfo
-		if o.Kind == "other-shard-store-save" {
-			// the other shard's leader, a different process with its own client: no faults there
-			e := otherStore.Save(o.Upstream, newCondition(o.Upstream, o.Name, o.Ver))
-			if e != nil {
-				res.Log = append(res.Log, o.String()+" -> harness error "+e.Error())
+	runOps := func(ops []op) {
+		for _, o := range ops {
+			o := o
+			before := inj.calls
+			var out opOutcome
+			var err error
+			var pi *panicInfo
+			if o.Kind == "other-shard-store-save" {
+				// the other shard's leader, a different process with its own client: no faults there
+				e := otherStore.Save(o.Upstream, newCondition(o.Upstream, o.Name, o.Ver))
+				if e != nil {
+					res.Log = append(res.Log, o.String()+" -> harness error "+e.Error())
+				}
+				m.allowed[o.Name] = valset{val{o.Ver, o.Ver}: true}
+				continue
 			}
-			m.allowed[o.Name] = valset{val{o.Ver, o.Ver}: true}
-			continue
-		}
-		if o.Kind == "new-server-gains-other-shard" {
-			newServer, _ = newClient(a)
-			res.NewServerFirst = true
-			n0 := len(res.Findings)
-			checkLoad(newServer, 1-seq.Shard, "the next server (gaining the other shard while this store is still running)", a.snapshot())
-			res.Log = append(res.Log, fmt.Sprintf("%s -> %d finding(s)", o.Kind, len(res.Findings)-n0))
-			continue
-		}
-		out, err, pi = perform(o)
-		if inj.calls >= at && before < at && at > 0 && res.HitOp == "" {
-			res.HitOp = o.Kind
-			res.hitOp = o
-		}
-		line := describeOutcome(o, out, err, pi)
-		if lineOverride != "" {
-			line, lineOverride = lineOverride, ""
-		}
-		if out == crashed {
-			res.Crashed = true
-		}
-		if out == panicked && pi != nil {
-			pi.Op = o.Kind
-			res.StorePanic = pi
-		}
-		res.Log = append(res.Log, line)
-		if out == crashed || out == panicked {
-			break // the process is gone, the store object is abandoned
-		}
-		if o.Kind == "load" && out != acked {
-			break // a store that could not load is discarded by the limiter
-		}
-		// write-through: whatever the store shows to its callers has been persisted at some time
-		if seq.Mode == "write-through" {
-			for _, c := range store.List(labels.Everything()) {
-				cur = c.Name
-				aliasMu.Lock()
-				excused := inPlace[c.Name][valOf(c)] // the caller itself wrote it into the object it shares with the store
-				aliasMu.Unlock()
-				if v := valOf(c); !a.everHeld(c.Name, v) && !excused {
-					add("visible-but-never-persisted", fmt.Sprintf("after %s the store hands out %s=%s, a value the API has never held", o, c.Name, v))
+			if o.Kind == "new-server-gains-other-shard" {
+				newServer, _ = newClient(a)
+				res.NewServerFirst = true
+				n0 := len(res.Findings)
+				checkLoad(newServer, 1-seq.Shard, "the next server (gaining the other shard while this store is still running)", a.snapshot())
+				res.Log = append(res.Log, fmt.Sprintf("%s -> %d finding(s)", o.Kind, len(res.Findings)-n0))
+				continue
+			}
+			out, err, pi = perform(o)
+			if inj.calls >= at && before < at && at > 0 && res.HitOp == "" {
+				res.HitOp = o.Kind
+				res.hitOp = o
+			}
+			line := describeOutcome(o, out, err, pi)
+			if lineOverride != "" {
+				line, lineOverride = lineOverride, ""
+			}
+			if out == crashed {
+				res.Crashed = true
+			}
+			if out == panicked && pi != nil {
+				pi.Op = o.Kind
+				res.StorePanic = pi
+			}
+			if phase != "" {
+				line = "[next holder] " + line
+			}
+			res.Log = append(res.Log, line)
+			if out == crashed || out == panicked {
+				break // the process is gone, the store object is abandoned
+			}
+			if o.Kind == "load" && out != acked {
+				break // a store that could not load is discarded by the limiter
+			}
+			// write-through: whatever the store shows to its callers has been persisted at some time
+			if seq.Mode == "write-through" {
+				for _, c := range store.List(labels.Everything()) {
+					cur = c.Name
+					aliasMu.Lock()
+					excused := inPlace[c.Name][valOf(c)] // the caller itself wrote it into the object it shares with the store
+					aliasMu.Unlock()
+					if v := valOf(c); !a.everHeld(c.Name, v) && !excused {
+						add("visible-but-never-persisted", fmt.Sprintf("after %s the store hands out %s=%s, a value the API has never held", o, c.Name, v))
+					}
 				}
 			}
-		}
-		if o.Kind == "stop" {
-			break
+			if o.Kind == "stop" {
+				if out == acked {
+					// the leader check may stop a store that is already stopped: nothing may be written by that
+					o2, e2, p2 := callOp(store.Stop)
+					res.StopAgain++
+					if o2 != acked {
+						res.Log = append(res.Log, describeOutcome(op{Kind: "stop (called again after it returned nil)"}, o2, e2, p2))
+					}
+				}
+				break
+			}
 		}
 	}
+	runOps(seq.Ops)
 	res.Calls, res.Verbs, res.HitVerb, res.Skipped = inj.calls, inj.verbs, inj.hitVerb, inj.skipped
 
 	// ---- end of the history: what the API holds vs. what the statement permits ----
 	inj.mu.Lock()
 	inj.killed = true // the old process is gone in every case (crashed, panicked, stopped or simply replaced)
 	inj.mu.Unlock()
-	snap := a.snapshot()
-	res.Final, res.Allowed = map[string]string{}, map[string]string{}
-	names := map[string]bool{}
-	for n := range snap {
-		names[n] = true
-	}
-	for n := range m.allowed {
-		names[n] = true
-	}
-	for n := range names {
-		cur = n
-		actual := absent
-		if st, ok := snap[n]; ok {
-			actual = st.Val
-			res.Final[n] = st.Val.String()
+	var snap map[string]stored
+	judgeAPI := func() {
+		snap = a.snapshot()
+		res.Final, res.Allowed = map[string]string{}, map[string]string{}
+		names := map[string]bool{}
+		for n := range snap {
+			names[n] = true
 		}
-		al := m.allow(n)
-		res.Allowed[n] = al.String()
-		if al[actual] {
-			continue
+		for n := range m.allowed {
+			names[n] = true
 		}
-		switch {
-		case actual == absent:
-			add("acknowledged-condition-not-persisted", fmt.Sprintf("%s is absent from the API; permitted: %s", n, al))
-		case (len(al) == 1 && al[absent]) || (m.deletedAck[n] && actual.Spec < 9000):
-			add("deleted-condition-persists", fmt.Sprintf("%s=%s is still in the API after its acknowledged deletion", n, actual))
-		case reportedAtAck[n]:
-			// same loss, already reported where it happened
-		default:
-			add("acknowledged-condition-not-persisted", fmt.Sprintf("the API holds %s=%s; permitted: %s", n, actual, al))
+		for n := range names {
+			cur = n
+			actual := absent
+			if st, ok := snap[n]; ok {
+				actual = st.Val
+				res.Final[n] = st.Val.String()
+			}
+			al := m.allow(n)
+			res.Allowed[n] = al.String()
+			if al[actual] {
+				continue
+			}
+			switch {
+			case actual == absent:
+				add("acknowledged-condition-not-persisted", fmt.Sprintf("%s is absent from the API; permitted: %s", n, al))
+			case (len(al) == 1 && al[absent]) || (m.deletedAck[n] && actual.Spec < 9000):
+				add("deleted-condition-persists", fmt.Sprintf("%s=%s is still in the API after its acknowledged deletion", n, actual))
+			case reportedAtAck[n]:
+				// same loss, already reported where it happened
+			default:
+				add("acknowledged-condition-not-persisted", fmt.Sprintf("the API holds %s=%s; permitted: %s", n, actual, al))
+			}
 		}
 	}
+	judgeAPI()
 
 	// ---- the next holders load ----
+	var nextStore _interface.LimitStore
+	var nextTick func()
+	var nextClient *gatewayfake.Clientset
 	for sh := 0; sh < shardCount; sh++ {
 		who := "new holder of the same shard"
 		if sh != seq.Shard {
@@ -846,7 +930,31 @@ func execute(seq sequence, faults []fault, emulateNilDeref bool) runResult {
 			csN = newServer
 			who = "the next server (gaining this shard right after the old holder is gone; it gained the other shard earlier)"
 		}
-		checkLoad(csN, sh, who, snap)
+		ns, nsTick := checkLoad(csN, sh, who, snap)
+		if sh == seq.Shard {
+			nextStore, nextTick, nextClient = ns, nsTick, csN
+		}
+	}
+
+	// ---- the next holder works on what it loaded, stops; a third holder loads ----
+	res.Recreated = m.recreated
+	if len(seq.Takeover) > 0 && nextStore != nil {
+		phase = "next-holder"
+		store, tick = nextStore, nextTick
+		inj = &injector{api: a} // (no faults in this phase; the interleaving hooks of the first phase are not used)
+		_ = nextClient
+		m = newModel(sequence{Mode: seq.Mode, Shard: seq.Shard, Ops: seq.Takeover}, snap)
+		m.afterLoad(snap)
+		for k := range reportedAtAck {
+			delete(reportedAtAck, k)
+		}
+		n0 := len(res.Log)
+		runOps(seq.Takeover)
+		res.TakeoverOps = len(res.Log) - n0
+		res.Recreated += m.recreated
+		judgeAPI()
+		csT, _ := newClient(a)
+		checkLoad(csT, seq.Shard, "the third holder of the shard (after the second one worked and stopped)", snap)
 	}
 	return res
 }
@@ -877,9 +985,9 @@ func (res *runResult) hitTouches(name string) bool {
 	case "save", "get-mutate-save", "mutate-resave", "delete":
 		return o.Name == name
 	case "delete-upstream":
-		return strings.HasPrefix(name, o.Upstream+".")
+		return isCondOf(name, o.Upstream)
 	}
-	if o.During != nil && (o.During.Name == name || (o.During.Kind == "delete-upstream" && strings.HasPrefix(name, o.During.Upstream+"."))) {
+	if o.During != nil && (o.During.Name == name || (o.During.Kind == "delete-upstream" && isCondOf(name, o.During.Upstream))) {
 		return true
 	}
 	return true
